@@ -301,6 +301,9 @@ func verifyMycatPatitionLongShard(shardNum int, partitionCount, partitionLength 
 
 	segmentLength := 0
 	for i := 0; i < countSize; i++ {
+		if countList[i] < 0 || lengthList[i] < 0 {
+			return fmt.Errorf("error, partition count and length must not be negative")
+		}
 		segmentLength += countList[i]
 	}
 	if segmentLength != shardNum {
